@@ -6,7 +6,7 @@ import numpy as np
 import common
 import impl
 
-RULE = ("all 24 exported distributions: logpdf on a grid of parameters x support points vs closed-form reference densities written from the "
+RULE = ("all 24 exported distributions: logpdf vs the LEAN spec term (printed by the model driver, evaluated in float64; its denotation is proved equal to the normalised density) on a grid of parameters x support points; logpdf on a grid of parameters x support points vs closed-form reference densities written from the "
         "documented parameterisation (the same formulas as lean/GenjaxModel/Proofs/DistSpec.lean where formalised) and vs scipy; numeric "
         "normalisation (summation / quadrature of exp(logpdf)); seeded draws (scalar, batched through modular_vmap, sample_shape) vs the reference "
         "CDF/PMF by KS / chi-square at alpha=1e-6, with documented shape and dtype; extreme-parameter points (wide logit spreads); user-wrapped "
@@ -220,11 +220,66 @@ def user_wrapped(G, ctx):
     ctx.count("user-wrapped")
 
 
+def lean_spec_table():
+    """(name -> (nparams, kind, term)) printed by the Lean driver: the terms whose denotation is PROVED equal to the
+    normalised densities of Proofs/DistSpec*.lean (theorems C13_spec_<name>_denotes)"""
+    import distspec_eval
+    ans = distspec_eval.parse_sexp(common.driver_run(["(distspec)"])[0])
+    if not ans or ans[0] != "ok":
+        raise common.Infra("driver (distspec): " + str(ans)[:200])
+    return {e[0]: (int(e[1]), e[2], e[3]) for e in ans[1:]}
+
+
+def _flatten(v):
+    return [float(x) for x in np.asarray(v, dtype=np.float64).reshape(-1)]
+
+
+def check_lean_spec(G, ctx, spec, lean):
+    """dist.logpdf vs the Lean spec term evaluated in float64 (the tie between the proved densities and the code)"""
+    import jax.numpy as jnp
+    import distspec_eval
+    import genjax.distributions as D
+    name = spec["name"]
+    if name not in lean:
+        ctx.correspondence_break("DistExpr.specTable (Lean) vs genjax.distributions", f"no Lean spec term for exported distribution {name}", {"distribution": name})
+        return
+    nparams, kind, term = lean[name]
+    plist = []
+    for pv in list(spec["params"]) + list(spec["kw"].values()):
+        plist += _flatten(pv)
+    if len(plist) != nparams:
+        ctx.count("leanspec:skipped-dimension")       # vector distributions are tied at the fixed dimension of the Lean term only
+        return
+    dist = getattr(D, name)
+    params = [jnp.asarray(p) for p in spec["params"]]
+    kw = {k: jnp.asarray(v) for k, v in spec["kw"].items()}
+    case = {"kind": "lean-spec", "distribution": name, "params": plist}
+    for x in spec["pts"]:
+        xs = _flatten(x) if spec["dtype"] != "bool" else [1.0 if x else 0.0]
+        try:
+            val = distspec_eval.evaluate(term, plist, xs if len(xs) > 1 else xs[0])
+            want = math.log(val) if val > 0 else -math.inf
+            xv = jnp.asarray(x) if spec["dtype"] != "bool" else jnp.asarray(bool(x))
+            got = float(dist.logpdf(xv, *params, **kw))
+        except Exception as ex:
+            ctx.property_failure(None, f"{name}: evaluating logpdf / the Lean spec term raised {type(ex).__name__}: {str(ex)[:140]}", {**case, "x": xs})
+            return
+        if not (abs(got - want) <= 2e-4 * (1 + abs(want))):
+            ctx.correspondence_break(f"C13_spec_{name}_denotes term vs {name}.logpdf", f"x={xs}: logpdf {got}, Lean spec density gives {want}", {**case, "x": xs})
+            ctx.property_failure(None, f"{name}({plist}).logpdf({xs}) = {got}, but the documented density (Lean term spec_{name}, proved normalised) gives {want}",
+                                 {**case, "x": xs, "logpdf": got, "lean_spec": want})
+            return
+    ctx.case(nontrivial_key=("lean-spec", name, str(plist)))
+    ctx.count("leanspec:" + name)
+
+
 def shard(ctx, idxs, n):
     G = impl.load()
     T = table()
+    lean = lean_spec_table()
     for i in idxs:
         check_density(G, ctx, T[i])
+        check_lean_spec(G, ctx, T[i], lean)
         check_sampler(G, ctx, T[i], n)
 
 
@@ -244,6 +299,7 @@ def replay(ctx, payload):
     for spec in table():
         if spec["name"] == c.get("distribution"):
             check_density(G, ctx, spec)
+            check_lean_spec(G, ctx, spec, lean_spec_table())
             check_sampler(G, ctx, spec, 4000)
     for i in ctx.issues:
         print("REPRODUCED:", i["what"])
